@@ -371,6 +371,7 @@ static Schedule fine_schedule(const Plan & p, uint64_t sched_seed)
   // another question on the same thread.  Drawn from a generator of its own, and the nested question is a *copy* of a plan
   // item, so the grouping and every preemption decision above are what they would be without it.
   Rng rn(sched_seed ^ 0x510e527fade682d1ull);
+  if (getenv("HSIM_NO_REENTRANCY")) return s;            // a maintainer who does not promise signal-safety can leave this dimension out
   static const unsigned nden[] = {1, 2, 3, 4, 8, 16};
   for (Segment & g : s.segs)
     {
@@ -1521,6 +1522,7 @@ static int do_scan_fine(uint64_t seed0, uint64_t count, const char * hashfile, u
     int directed = conflicts.empty() ? 0 : static_cast<int>(std::min<size_t>(plain_pairs ? 9 : 2, conflicts.size()));
     if (getenv("HSIM_DIRECTED") && plain_pairs) directed = atoi(getenv("HSIM_DIRECTED"));
     int nestn = (conflicts.empty() && same_caller.empty()) ? 0 : 3;
+    if (getenv("HSIM_NO_REENTRANCY")) nestn = 0;
     st.same_caller_pairs += same_caller.size();
     account_plan(st, p, ra, seed, 1 + variants + directed + nestn);
     bool found = false;
